@@ -151,6 +151,17 @@ def c_train(ctx, case):
         ctx.close(a, b, "fit(em_iterations=%d) %s vs composition of public steps" % (case["em"], name),
                   rtol=1e-7 if chunked else 1e-9, atol=(1e-9 if chunked else 1e-11) * (np.abs(b).max() + 1e-300))
 
+    # a second fit() on the SAME object continues from the U, V, D it holds and from nothing else: a fresh machine
+    # that is given those matrices and trained once ends in the same place
+    start = {name: np.array(getattr(f, name), dtype=float) for name in "UVD"}
+    f.fit(X, y)
+    g = sut.make_fa(dict(case, U=start["U"], V=start["V"], D=start["D"]), em_iterations=case["em"], random_state=case["seed"])
+    g.fit(X, y)
+    for name in "VUD":
+        a, b = np.asarray(getattr(f, name), float), np.asarray(getattr(g, name), float)
+        ctx.close(a, b, "second fit on the same machine, %s vs a fresh machine started from the first fit's result" % name,
+                  rtol=1e-9, atol=1e-11 * (np.abs(b).max() + 1e-300))
+
 
 @REG.obligation("fit_v_trajectory_monotone", g_train, quick=200, thorough=4000, shard_size=40)
 def c_fit_v(ctx, case):
